@@ -14,10 +14,10 @@ ALLK = '{"req", "resp", "hdrs", "chunk"}'
 
 
 def gen_cfg(family, caps="{1, 100000}", kinds=ALLK, maxlen=100000, phases="{}", cfgs="{}",
-            follow="{}", alpha="{}", L="0", lanebytes="{}", fillmode="ascii"):
+            follow="{}", alpha="{}", L="0", lanebytes="{}", fillmode="ascii", lanetail=0):
     return dict(Family='"%s"' % family, SeedCaps=caps, SeedKinds=kinds, SeedMaxLen=str(maxlen),
                 SeedPhases=phases, SeedCfgs=cfgs, Follow=follow, Alpha=alpha, L=L, LaneBytes=lanebytes,
-                FillMode='"%s"' % fillmode)
+                FillMode='"%s"' % fillmode, LaneTail=str(lanetail))
 
 
 # name -> (constants, shards, workers-per-shard, simulate)
@@ -29,6 +29,16 @@ FAMILIES = {
     # the same with a filler of high bytes (valid UTF-8): neighbours >= 0x80 next to the byte under test
     "lane8_q": (gen_cfg("LANE", caps="{100000}", follow="{10, 32}", L="42", lanebytes=LANE14, fillmode="utf8",
                         phases='{"TARGET", "VALUE", "REASON", "EXT", "IGN"}'), 4, 3),
+    # the byte under test followed by 40 more bytes: a full vector block is still available after it
+    "lanetail_q": (gen_cfg("LANE", caps="{100000}", follow="{10}", L="40", lanebytes=LANE14, lanetail=40,
+                           phases='{"TARGET", "VALUE", "REASON", "NAME", "EXT", "IGN", "OWS"}'), 4, 3),
+    # fields longer than four vector widths, with a forbidden byte at every offset (code that
+    # unrolls its scanner by 64 / 128 bytes, or takes a different path for aligned addresses)
+    "lanelong_q": (gen_cfg("LANE", caps="{100000}", follow="{10}", L="150", lanebytes="{0, 9, 32, 127}", lanetail=0,
+                           phases='{"TARGET", "VALUE", "REASON", "NAME"}', cfgs="{0}"), 4, 3),
+    # long whitespace runs inside and at the end of values and reasons
+    "lanews_q": (gen_cfg("LANE", caps="{1, 100000}", follow="{10, 13}", L="70", lanebytes="{9, 10, 13, 32, 97, 127}", fillmode="ws",
+                         phases='{"VALUE", "REASON"}'), 2, 4),
     "len_q": (gen_cfg("LANE", caps="{100000}", follow="{10}", L="100", lanebytes="{10, 13, 32, 58}"), 4, 3),
     "chunk_q": (gen_cfg("EXT", kinds='{"chunk"}', maxlen=0, alpha=CHUNK14, L="5"), 1, 12),
     "digits": (gen_cfg("SEQ", kinds='{"chunk"}', maxlen=0, L='"DIGITS"'), 1, 4),
